@@ -4,7 +4,7 @@
 //!   case = {"id": str,
 //!           "files": [{"name": "0001.json", "raw": str | null,            // raw: written verbatim (unreadable file)
 //!                      "events": [{"level","message","version","task","pid","tid","op","ts"}]}],
-//!           "replies": ["ok"|"503"|"500"|"400"|"reset"|"close", ...],     // n-th telemetry POST gets replies[n]
+//!           "replies": ["ok"|"503"|"500"|"400"|"429"|"reset"|"close", ...],     // n-th telemetry POST gets replies[n]
 //!           "default_reply": "ok", "post_limit": N}
 //!   every text field is a recipe [[string, repeat], ...] (keeps scripts small for 64 KiB messages).
 //! The files are written with the repository's own `Event` type and `misc_helpers::json_write_to_file` (what
